@@ -113,7 +113,7 @@ def run(ctx):
     if not (drv and h):
         return
     quick = ctx.tier == "quick"
-    n = 300 if quick else 6000
+    n = 220 if quick else 3000
     if ctx.broken:
         n *= 10
     corpus = [l.strip() for l in open(ctx.pdir + "/corpus.txt") if l.strip() and not l.startswith("#")]
